@@ -2,7 +2,7 @@
    watch-set invariant for the pinned tree's updateDirWatches (DESIGN finding
    12).  Everything here is closed by vm_compute on concrete traces. *)
 From Coq Require Import List NArith Bool.
-From Dials Require Import Base.Outcome Base.Runes Sources.FileWatch Sources.FileWatchProofs.
+From Dials Require Import Base.Outcome Base.Runes Sources.FileWatch Sources.FileWatchProofs Sources.FileWatchNoLost.
 Import ListNotations.
 Open Scope N_scope.
 
@@ -15,7 +15,14 @@ Definition p_cfg : path := [[99]; [102]].          (* c/f  : the config path *)
 Definition p_other : path := [[111]; [103]].       (* o/g  : a file in another directory *)
 Definition p_tmp : path := [[99]; [116]].          (* c/t  : a temporary file next to the config *)
 
-Definition fs_of (r : read_result) (res : path) : fs := mkFs r (Some res) true true.
+(* a readable state resolved to res; the link resolution is consistent with it *)
+Definition fs_of (r : read_result) (res : path) : fs :=
+  mkFs r (Some res) (if path_eqb p_cfg res then None else Some res) true true [dir p_cfg].
+(* the same state reached by a change that shows only in the directories ds *)
+Definition fs_at (ds : list path) (r : read_result) (res : path) : fs :=
+  mkFs r (Some res) (if path_eqb p_cfg res then None else Some res) true true ds.
+(* the file is absent; link = where a dangling symlink points, if any *)
+Definition fs_gone (ds : list path) (link : option path) : fs := mkFs NotExist None link false true ds.
 
 (* regular file -> symlink into another directory -> two rename-overs, the
    second with malformed content; every change followed by the event inotify
@@ -28,10 +35,10 @@ Definition ex_trace : list item :=
     In IRecheck; In ITick;
     Fs (fs_of (Content 2) p_cfg); In (IEvent p_cfg);           (* identical content, new inode *)
     Fs (fs_of (Content 100) p_cfg); In (IEvent p_cfg);         (* malformed *)
-    Fs (fs_of NotExist p_cfg); In (IEvent p_cfg);              (* deleted *)
+    Fs (fs_gone [dir p_cfg] None); In (IEvent p_cfg);          (* deleted *)
     Fs (fs_of (Content 100) p_cfg); In (IEvent p_cfg); In IReload ].
 
-Definition ex_init := (init_fs 0 p_cfg, init_state ex_hmac p_cfg 0 0 p_cfg).
+Definition ex_init := (init_fs p_cfg 0 p_cfg, init_state ex_hmac p_cfg 0 0 p_cfg).
 Definition ex_run udw t := snd (run ex_decode ex_hmac udw p_cfg t ex_init).
 
 (* the hypotheses of watchset_invariant / converges_given_notification are
@@ -89,7 +96,7 @@ Definition window_trace : list item :=
   [ In IRecheck;
     Fs (fs_of (Content 1) p_other); KernelDrop p_cfg;
     InRead (IEvent p_cfg);                      (* reads content 1 *)
-    Fs (fs_of (Content 6) p_other);             (* in-place rewrite, directory not yet watched *)
+    Fs (fs_at [dir p_other] (Content 6) p_other);  (* in-place rewrite, directory not yet watched *)
     Cont ].                                     (* now the directory watch is added *)
 
 Example window_unwatched_at_write :
@@ -116,28 +123,67 @@ Example startup_window :
   view (ex_run update_dir_watches [Fs (fs_of (Content 3) p_cfg); In IRecheck]) = Some (3, 3).
 Proof. vm_compute. repeat split; reflexivity. Qed.
 
-(* Known-finding class C17/2 on the model: the config path is switched to a
-   target in another directory and the target is deleted before the loop has
-   looked (dangling symlink).  The loop reads not-exist; its not-exist branch
-   does not follow the link, so the directory where the file re-appears is not
-   watched although the (belief-based) watch-set invariant holds: the
-   environment cannot deliver an event for the re-creation, E-notify fails for
-   this history, and the view stays stale.  An explicit reload repairs it. *)
-Definition dangling_trace : list item :=
+(* The former known-finding class C17/2, now repaired: the config path is
+   switched to a target in another directory and the target is deleted before
+   the loop has looked (dangling symlink).  The not-exist branch follows the
+   dangling link (fs_linkres) and watches the directory the target will
+   re-appear in, leaving a token; the re-creation is then covered by that watch
+   and the view converges.  Without following the link (the state has no link
+   resolution: fs_gone .. None = what the code before the repair could see) the
+   directory stays unwatched although the belief-based invariant holds. *)
+Definition dangling_trace (link : option path) : list item :=
   [ In IRecheck;
     Fs (fs_of (Content 1) p_other); KernelDrop p_cfg;   (* switched, event for c/f queued *)
-    Fs (mkFs NotExist None false false);                 (* target deleted: dangling link *)
+    Fs (fs_gone [dir p_other] link);                     (* target deleted: dangling link *)
     In (IEvent p_cfg);                                   (* the loop looks: not exist *)
-    Fs (fs_of (Content 2) p_other) ].                    (* target re-created in o/: nobody watches o/ *)
+    In IRecheck ].
 
-Example dangling_target_refuted :
-  let st := ex_run update_dir_watches dangling_trace in
-  view st = Some (0, 0) /\ winv p_cfg st = true /\ st_recheck st = false /\
-  mem (dir p_other) (st_watches st) = false /\
-  trace_ok ex_decode ex_hmac update_dir_watches p_cfg dangling_trace (fst ex_init) (snd ex_init) = true /\
-  e_notify ex_decode ex_hmac update_dir_watches p_cfg dangling_trace (fst ex_init) (snd ex_init) = false /\
-  view (ex_run update_dir_watches (dangling_trace ++ [In IReload])) = Some (2, 2).
+Example dangling_now_watched :
+  let st := ex_run update_dir_watches (dangling_trace (Some p_other)) in
+  mem (dir p_other) (st_watches st) = true /\ st_resolved st = p_other /\ idle st = true /\
+  view (ex_run update_dir_watches (dangling_trace (Some p_other) ++
+          [Fs (fs_at [dir p_other] (Content 2) p_other); In (IEvent p_other)])) = Some (2, 2).
 Proof. vm_compute. repeat split; reflexivity. Qed.
+
+Example dangling_target_pre_fix_refuted :
+  let st := ex_run update_dir_watches (dangling_trace None) in
+  view st = Some (0, 0) /\ winv p_cfg st = true /\ idle st = true /\
+  mem (dir p_other) (st_watches st) = false.
+Proof. vm_compute. repeat split; reflexivity. Qed.
+
+(* ---- no_lost_update: its hypotheses are satisfiable, and without the token
+   the conclusion fails under the very same hypotheses ---- *)
+
+Definition nlu_t1 : list item :=
+  [ Fs (fs_of (Content 1) p_other); KernelDrop p_cfg;
+    InRead (IEvent p_cfg) ].                    (* reads content 1; second half pending *)
+Definition nlu_f : fs := fs_at [dir p_other] (Content 6) p_other.   (* written while o/ is unwatched *)
+
+Example nlu_hypotheses_hold :
+  let t := In IRecheck :: nlu_t1 ++ Fs nlu_f :: [Cont; In IRecheck] in
+  trace_ok ex_decode ex_hmac update_dir_watches p_cfg t (fst ex_init) (snd ex_init) = true /\
+  env_ok ex_decode ex_hmac update_dir_watches p_cfg t (fst ex_init) (snd ex_init) = true /\
+  e_covered ex_decode ex_hmac update_dir_watches p_cfg t (fst ex_init) (snd ex_init) = true /\
+  idle (ex_run update_dir_watches t) = true /\
+  view (ex_run update_dir_watches t) = Some (6, 6).
+Proof. vm_compute. repeat split; reflexivity. Qed.
+
+(* General shape of the refutation for the loop without the recheck token (no
+   token is ever received = the code before the second repair): a trace that
+   satisfies every environment hypothesis of no_lost_update, in which the last
+   change falls between a pass's read and its second half, ends with the loop
+   blocked in its select and the view stale. *)
+Lemma no_lost_update_pre_fix_refuted :
+  exists t1 f t2,
+    forallb (fun it => negb (is_fs it)) t2 = true /\
+    forallb no_token (t1 ++ Fs f :: t2) = true /\
+    trace_ok ex_decode ex_hmac update_dir_watches p_cfg (t1 ++ Fs f :: t2) (fst ex_init) (snd ex_init) = true /\
+    env_ok ex_decode ex_hmac update_dir_watches p_cfg (t1 ++ Fs f :: t2) (fst ex_init) (snd ex_init) = true /\
+    e_covered ex_decode ex_hmac update_dir_watches p_cfg (t1 ++ Fs f :: t2) (fst ex_init) (snd ex_init) = true /\
+    at_select (ex_run update_dir_watches (t1 ++ Fs f :: t2)) = true /\
+    fs_read f = Content 6 /\ ex_decode 6 = Some 6 /\
+    view (ex_run update_dir_watches (t1 ++ Fs f :: t2)) = Some (1, 1).
+Proof. exists nlu_t1, nlu_f, [Cont]. vm_compute. repeat split; reflexivity. Qed.
 
 (* cancel: the loop returns, all watches are released, later inputs are ignored *)
 Example ex_cancel :
